@@ -917,7 +917,7 @@ def run_unit_sequences(R, registry, seqs, fresh_budget, res, history):
                     res['outs'].append(o)
                 fo = fresh[k][1] if fresh is not None and k < len(fresh) else None
                 if o != e or (fo is not None and fo != o):
-                    if len(res['violations']) >= 6:
+                    if len(res['violations']) >= 60:
                         continue
                     # does the sequence alone reproduce it, on a module without any history?
                     alone = None
@@ -968,7 +968,7 @@ def run_e2e_sequences(R, registry, seqs, tmp, res):
             if stray:
                 bad.append({'kind': 'stdout-outside-tag', 'key': 'stray-stdout', 'observed': ascii(stray[:300]), 'expected': 'nothing is printed except by Checker.tag', 'tag': '-', 'where': '-'})
             for v in bad[:2]:
-                if len(res['violations']) >= 6:
+                if len(res['violations']) >= 60:
                     break
                 names = [os.path.relpath(p, tmp) for p, _f, _d in files[:j + 1]]
                 res['violations'].append(dict(
@@ -1231,7 +1231,22 @@ def sequence_stream(chk, R, workers=3):
                 p.kill()
         shutil.rmtree(tmp, ignore_errors=True)
     stats['tags_seen'] = sorted(stats['tags_seen'])
-    return violations, stats, lines, outs, e2e
+    stats['violations_before_dedup'] = len(violations)
+    # the most damaging first: file text that comes out unquoted; one replay per (kind, key, direction), at most 8
+    def prio(v):
+        raw = str(v.get('grammar') or '').find('file-derived value') >= 0 or (v.get('kind', '').startswith(('history', 'sequence-output')) and 'safestr' not in v.get('call', ''))
+        return (0 if raw else 1, v.get('kind', ''), v.get('key', ''))
+    violations.sort(key=prio)
+    seen, kept, rest = set(), [], []
+    for v in violations:                      # first the best one of every kind, then others with new keys
+        (kept if v.get('kind') not in seen else rest).append(v)
+        seen.add(v.get('kind'))
+    for v in rest:
+        k = (prio(v)[0], v.get('kind'), v.get('key'))
+        if k not in seen and len(kept) < 8:
+            seen.add(k)
+            kept.append(v)
+    return kept, stats, lines, outs, e2e
 
 def falsify_cli_sequences(chk, R, e2e, count):
     """the real command line: `i18nspector A B` (one process) prints what `i18nspector A` followed by `i18nspector B` print"""
